@@ -115,6 +115,13 @@ def build(family, p):
                 got = _outcome(fn, s_)
                 check(got in ('accept', 'reject'), 'validator raised something other than MarshallingError')
                 check((got == 'accept') == want, 'validator disagrees with the DBus grammar on a short string')
+                # the verdict on a name must not depend on which other validators saw the same string before
+                for other in ('validateBusName', 'validateInterfaceName', 'validateErrorName', 'validateMemberName',
+                              'validateObjectPath'):
+                    if other != name and hasattr(marshal, other):
+                        _outcome(getattr(marshal, other), s_)
+                again = _outcome(fn, s_)
+                check(again == got, 'the verdict on a name changed after other validators had seen the same string')
             reached()
         h.__name__ = 'alpha'
         wit = [(0,)] if not n else [(encode_choice([(i * 5 + j) % len(ALPHA) for j in range(n)], [len(ALPHA)] * n),) for i in range(4)]
